@@ -12,7 +12,7 @@
    correspondence harness (real scanner on the real String() vs [tokens_of] of the real tree).
    Property theorems only. *)
 From Soy Require Import Model.Bytes Model.Num Model.Values Model.Ast Model.Token Model.NumLit Model.Quote Model.ExprParser
-  Model.AstPrint Generated.Tables Spec.ExprSyntax Proofs.ExprParserRules Proofs.ExprParserProofs.
+  Model.AstPrint Generated.Tables Spec.ExprSyntax Proofs.ExprParserRules Proofs.LiteralProofs Proofs.ExprParserProofs.
 Open Scope N_scope.
 
 (* Parsing the items of the printed expression gives back the expression itself (positions
@@ -62,6 +62,33 @@ Theorem C17_parser_levels : forall op,
   prec_of (op_tok_typ op) = match op with OElvis => 0 | _ => op_level op end.
 Proof. intros op. split; [apply op_tok_binary | apply qlev_spec]. Qed.
 Print Assumptions C17_parser_levels.
+
+(* Side conditions of wf_expr that are theorems: every int64 literal (FormatInt then ParseInt)
+   and every valid UTF-8 map key (escaped by the printer, read by unquoteString) reads back. *)
+Theorem C17_int_literals : forall z, in_int64 z = true -> parse_int 10 (dec_of_Z z) = Some z.
+Proof. exact LiteralProofs.parse_int_dec. Qed.
+Print Assumptions C17_int_literals.
+
+Theorem C17_map_keys : forall k, Utf8.utf8_valid k = true -> key_ok k.
+Proof. exact key_ok_valid_utf8. Qed.
+Print Assumptions C17_map_keys.
+
+(* The float side condition is decidable ([float_okb], sound: float_okb f = true -> float_ok f).
+   NOT a universal theorem: a computed sample -- every dyadic (2k+1)/2^j, k < 300, j in
+   {0,1,2,3,5,9,10,14,20}, of either sign, that the printer model can print at all
+   (magnitude >= 2^-9, at most 15 significant digits) reads back as itself. *)
+Theorem C17_float_checker_sound : forall f, float_okb f = true -> float_ok f.
+Proof. exact float_okb_sound. Qed.
+Print Assumptions C17_float_checker_sound.
+
+Fixpoint c17_upto (n : nat) : list Z := match n with O => [] | S k => Z.of_nat k :: c17_upto k end.
+Definition c17_float_samples : list fl :=
+  flat_map (fun k => flat_map (fun j => match mk_fl (2 * k + 1) (- Z.of_nat j) with Some f => [f; fl_neg f] | None => [] end)
+                              [0; 1; 2; 3; 5; 9; 10; 14; 20]%nat) (c17_upto 300).
+Example C17_float_sample :
+  forallb (fun f => match fl_print f with Some _ => float_okb f | None => true end) c17_float_samples = true
+  /\ length (filter float_okb c17_float_samples) = 3600%nat.
+Proof. vm_compute. split; reflexivity. Qed.
 
 (* ---- non-vacuity: concrete well-formed trees, printed and read back by computation ---- *)
 Definition ex_nested : node :=            (* (1 + $a.b?[0]) * -(5) *)
